@@ -187,7 +187,7 @@ def runApp (c : Case) : Res :=
         -- per security comparison
         let cmpOne := fun (s : Nat) (x : ImplSec) (txs : List Tx) (ds : List Delta) (fail : Option Failure) =>
           let modelOutcome := match fail with | none => "ok" | some (.err _) => "err" | some (.panic _) => "panic"
-          let os := ledgerOracles dflt (initOf s) txs x.deltas
+          let os := ledgerOracles dflt (initOf s) txs x.deltas (x.outcome == "ok")
           if nearThreshold ds then ({ sec := s, diff := none, oracles := [], ds := ds, fail := fail } : SecCmp)
           else if modelOutcome ≠ x.outcome then
             { sec := s, diff := some ("dk=outcome", s!"security {s}: outcome model={modelOutcome}({match fail with | some f => failureName f | none => ""}) impl={x.outcome} {x.msg}"), oracles := os, ds := ds, fail := fail }
